@@ -683,6 +683,53 @@ def r17(db, ctx):
     C06.score_into_range(db, ctx, 'R1.7')
 
 
+def r110(db, ctx):
+    ctx.rule('R1.10', 'reading scores back: scores::Iter::next / next_back yield get(i) for the index the wrapped range yields (len is the range length), '
+                      'unstripe and Vec::from(StripedScores) collect iter() in order, to_striped stripes the whole sequence')
+    from lm import reduce as RD
+    n = 0
+
+    def ret(f):
+        e = common.return_expr_single_path_allow(f)
+        return norm(e) if e is not None else None
+    IT = '<lightmotif::scores::Iter<'
+    for name, range_call in (('next', 'range::next'), ('next_back', 'range::next_back')):
+        fs = [f for f in db.fns.values() if f.path.startswith(IT) and f.name == name and f.kind == 'AssocFn' and not f.promoted_of]
+        for f in fs:
+            e = ret(f)
+            mm = m(('call~', 'Option::map', (('call~', (range_call, 'Iterator::' + name if name == 'next' else 'DoubleEndedIterator::next_back'), (('fld', ('p', 1), 'indices'),)), '$clo')), e) if e else None
+            out = RD.apply_fn(db, mm['$clo'], [('sym', 'i')]) if mm is not None else None
+            ok = out is not None and m(('call~', 'Iter::get', (('p', 1), ('sym', 'i'))), norm(out)) is not None
+            if ok:
+                n += 1
+                ctx.ok('R1.10', f, f'{name}() = indices.{name}().map(|i| self.get(i))')
+            else:
+                ctx.fail('R1.10', f, f'scores::Iter::{name}', f'{name}() is {X.show(e, 120) if e else None}: not get(i) for the index i that indices.{name}() yields')
+    for f in [f for f in db.fns.values() if f.path.startswith(IT) and f.name == 'len' and f.kind == 'AssocFn' and not f.promoted_of]:
+        e = ret(f)
+        if e is not None and m(('call~', 'ExactSizeIterator::len', (('fld', ('p', 1), 'indices'),)), e) is not None:
+            n += 1
+            ctx.ok('R1.10', f, 'len() = indices.len()')
+        else:
+            ctx.fail('R1.10', f, 'scores::Iter::len', f'len() is {X.show(e, 100) if e else None}, not indices.len()')
+    coll = ('call~', ('Iterator::collect', 'FromIterator::from_iter'), (('call~', ('Iterator::cloned', 'Iterator::copied'), (('call~', 'StripedScores::iter', (('p', 1),)),)),))
+    for f in [f for f in db.fns.values() if (f.path.endswith('StripedScores::<T, C>::unstripe') or 'From<lightmotif::scores::StripedScores<T, C>> for alloc::vec::Vec<T>>::from' in f.path)
+              and not f.promoted_of and f.kind in ('AssocFn', 'Fn')]:
+        e = ret(f)
+        if e is not None and m(coll, e) is not None:
+            n += 1
+            ctx.ok('R1.10', f, 'collects self.iter() in order')
+        else:
+            ctx.fail('R1.10', f, 'scores -> Vec', f'result is {X.show(e, 120) if e else None}, not self.iter().cloned().collect()')
+    for f in [f for f in db.fns.values() if f.path.endswith('EncodedSequence::<A>::to_striped') and not f.promoted_of]:
+        if common.forwards(db, ctx, 'R1.10', f, ['Stripe::stripe'], {1: ('fld', ('p', 1), 'data')}, 'to_striped -> Pipeline::dispatch().stripe(&self.data)'):
+            n += 1
+    for f in [f for f in db.fns.values() if 'StripedSequence<A, C> as core::convert::From<lightmotif::seq::EncodedSequence<A>>>::from' in f.path and not f.promoted_of]:
+        if common.forwards(db, ctx, 'R1.10', f, ['EncodedSequence::to_striped'], {0: ('p', 1)}, 'From<EncodedSequence> -> to_striped'):
+            n += 1
+    ctx.floor('R1.10', n, 7, 'score read-back / conversion wrappers')
+
+
 def kernel_rules(db, ctx):
     ctx.rule('R1.1', 'lane semantics of each scoring kernel: stored cell (r, c) = Σ_{j < rows(pssm)} T_j[seq(rows.start + r + j, c)]; accumulators start at the additive identity; '
                      'table / sequence / result pointers advance in lock-step by their own strides; every column stored exactly once')
@@ -695,6 +742,7 @@ def kernel_rules(db, ctx):
 
 def run(db, ctx):
     kernel_rules(db, ctx)
+    r110(db, ctx)
     r12(db, ctx)
     r13(db, ctx)
     r14(db, ctx)
